@@ -295,7 +295,8 @@ class _GlobSplit(Generic[AnyStr]):
         else:
             v = value
         if globstar and l and l[-1].is_globstar:
-            l[-1] = _GlobPart(v, magic, globstar, globstarlong, dir_only, False)
+            # Adjacent `globstars` are one, and if either of them follows symlinks (`***`) the merged one does.
+            l[-1] = _GlobPart(v, magic, globstar, globstarlong or l[-1].is_globstarlong, dir_only, False)
         else:
             l.append(_GlobPart(v, magic, globstar, globstarlong, dir_only, False))
 
